@@ -42,7 +42,7 @@ Theorem C05_Skip_refines : forall d, wf d -> rel1 (skip d) (s_skip (abs d)).
 Proof. exact skip_refines. Qed.
 Print Assumptions C05_Skip_refines.
 
-(* next(n): also "both panic" for n < 0 on a non-empty stream (relr) *)
+(* next(n): n < 0 on a non-empty stream is the decode error "negative length" on both sides (relr would also accept "both panic") *)
 Theorem C05_next_refines : forall n d, wf d -> relr (nosafe (next n d)) (s_next n (abs d)).
 Proof. exact next_refines. Qed.
 Print Assumptions C05_next_refines.
